@@ -167,10 +167,64 @@ Proof.
 Qed.
 End Inv.
 
-(* The general branch multiplies by a2: a non-canonical zero a2 (all coordinates = p, as
-   produced by sm9_z256_fp12_neg on an element with a2 = 0) is not recognised by the bitwise
-   test and the function returns 0 instead of the inverse.  Witness: -1. *)
-Example I12inv_noncanonical_zero_refuted :
-  canon12 (I12inv (I12neg I12one)) = canon12 I12zero /\
-  canon12 (I12mul (I12neg I12one) (I12inv (I12neg I12one))) <> canon12 I12one.
-Proof. split; [vm_compute; reflexivity | vm_compute; discriminate]. Qed.
+(* ------------------------------------------------------------------ inversion after negation
+   Since c2dbe37 sm9_z256_modp_neg(0) = 0, so negation (and the conjugations built from it) keeps a
+   zero coefficient recognisable by the bitwise test, and fp12_inv(fp12_neg(a)) takes the same
+   branch as fp12_inv(a). *)
+Lemma fneg_0 : fneg 0 = 0. Proof. reflexivity. Qed.
+Lemma I4neg_zero a : I4is_zero a = true -> I4is_zero (I4neg a) = true.
+Proof. intros H. apply I4is_zero_true in H. subst a. reflexivity. Qed.
+Lemma I4conj_zero a : I4is_zero a = true -> I4is_zero (I4conj a) = true.
+Proof. intros H. apply I4is_zero_true in H. subst a. reflexivity. Qed.
+
+Lemma norm4_rel x y : rel4 x y -> norm4 x == norm4 y.
+Proof.
+  destruct x as [[x0 x1] [x2 x3]], y as [[y0 y1] [y2 y3]]. intros [[H0 H1] [H2 H3]]; cbn [fst snd] in *.
+  unfold norm4, n4, norm2, S2sub, S2mul, S2u; cbn [fst snd].
+  rewrite H0, H1, H2, H3. reflexivity.
+Qed.
+Lemma norm4_neg x : norm4 (S4neg x) = norm4 x.
+Proof.
+  destruct x as [[x0 x1] [x2 x3]]. unfold norm4, n4, norm2, S4neg, S2neg, S2sub, S2mul, S2u; cbn [fst snd]. ring.
+Qed.
+Lemma S4add_rel a a' b b' : rel4 a a' -> rel4 b b' -> rel4 (S4add a b) (S4add a' b').
+Proof.
+  intros Ha Hb. eapply rel4_trans; [apply rel4_sym, I4add_ok; apply rel4_refl | apply I4add_ok; assumption].
+Qed.
+
+Section InvNeg.
+Hypothesis fermat : fermat_p.
+Lemma I12inv_neg_ok a : I4is_zero (c2 a) = true -> norm4 (D12 a) mod p <> 0 ->
+  rel12 (S12mul (I12neg a) (I12inv (I12neg a))) S12one.
+Proof.
+  intros Hz Hn. apply (I12inv_ok fermat). destruct a as [[a0 a1] a2]. unfold c2 in Hz; cbn [snd] in Hz.
+  unfold I12neg, c0, c1, c2; cbn [fst snd]. unfold D12 in *. rewrite Hz in Hn. rewrite (I4neg_zero a2 Hz).
+  set (D := S4add (S4mul (S4mul a0 a0) a0) (S4mul (S4mul S4v (S4mul a1 a1)) a1)) in *.
+  assert (Hr : rel4 (S4add (S4mul (S4mul (I4neg a0) (I4neg a0)) (I4neg a0))
+                           (S4mul (S4mul S4v (S4mul (I4neg a1) (I4neg a1))) (I4neg a1))) (S4neg D)).
+  { assert (H0 : rel4 (I4neg a0) (S4neg a0)) by (apply I4neg_ok, rel4_refl).
+    assert (H1 : rel4 (I4neg a1) (S4neg a1)) by (apply I4neg_ok, rel4_refl).
+    eapply rel4_eq_r.
+    - apply S4add_rel; repeat apply S4mul_rel; try eassumption; apply rel4_refl.
+    - unfold D. ring. }
+  apply norm4_rel in Hr. rewrite norm4_neg in Hr.
+  intros E. apply Hn. unfold eqp in Hr. rewrite <- Hr. exact E.
+Qed.
+End InvNeg.
+
+(* residual / history.  fp12_inv itself still selects its branch with the bitwise test, so on a
+   NON-canonical zero a2 (all coordinates = p) it returns 0.  Before c2dbe37 fp12_neg produced
+   exactly such elements ([fneg_old 0 = p]) and inv(-1) was computed as 0; no exported operation
+   produces them from canonical input any more, and inv(-1) is now correct. *)
+Definition noncanonical_minus_one : T12 :=
+  (((fneg_old 1, fneg_old 0), (fneg_old 0, fneg_old 0)),
+   ((fneg_old 0, fneg_old 0), (fneg_old 0, fneg_old 0)),
+   ((fneg_old 0, fneg_old 0), (fneg_old 0, fneg_old 0))).
+Example I12inv_old_neg_refuted :
+  fneg_old 0 = p /\ canon12 noncanonical_minus_one = canon12 (S12neg S12one) /\
+  canon12 (I12inv noncanonical_minus_one) = canon12 I12zero.
+Proof. split; [| split]; vm_compute; reflexivity. Qed.
+Example I12inv_neg_one_now :
+  I12neg I12one = (((p - 1, 0), (0, 0)), ((0, 0), (0, 0)), ((0, 0), (0, 0))) /\
+  canon12 (I12mul (I12neg I12one) (I12inv (I12neg I12one))) = canon12 I12one.
+Proof. split; vm_compute; reflexivity. Qed.
